@@ -52,6 +52,11 @@ func main() {
 	if s, err := strconv.Atoi(os.Getenv("VERIF_SEED")); err == nil {
 		seed = s
 	}
+	if *prop == "all" {
+		// mutant / seed runs: load once, run every property's rules, one line per reported obligation
+		runAll(*repo, *verif, *overlayFile)
+		return
+	}
 	pr := rules.Props[*prop]
 	if pr == nil {
 		fmt.Printf("unknown property %q\n", *prop)
@@ -230,4 +235,58 @@ func replayOne(ctx *core.Ctx, file string) {
 		}
 	}
 	fmt.Printf("replay: obligation %s [%s] no longer exists on the current tree\n", rec.Obligation.Rule, rec.Obligation.Key)
+}
+
+// runAll loads the default configuration once and evaluates every property on it.
+func runAll(repo, verif, overlayFile string) {
+	cfg := core.Config{Name: "default", Dir: repo}
+	if overlayFile != "" {
+		b, err := os.ReadFile(overlayFile)
+		if err != nil {
+			fmt.Println("overlay:", err)
+			os.Exit(2)
+		}
+		ov := map[string]string{}
+		if err := json.Unmarshal(b, &ov); err != nil {
+			fmt.Println("overlay:", err)
+			os.Exit(2)
+		}
+		cfg.Overlay = map[string][]byte{}
+		for k, v := range ov {
+			cfg.Overlay[k] = []byte(v)
+		}
+	}
+	p, err := core.Load(cfg)
+	if err != nil {
+		fmt.Printf("LOAD [load / default]: %v\n", err)
+		os.Exit(3)
+	}
+	var ids []string
+	for id := range rules.Props {
+		ids = append(ids, id)
+	}
+	sort.Strings(ids)
+	bad := 0
+	for _, id := range ids {
+		ctx := core.NewCtx(p, id, "quick")
+		for _, r := range rules.Props[id].Rules {
+			func() {
+				defer func() {
+					if e := recover(); e != nil {
+						ctx.Rule("PANIC", "an analyser panic is a failed check, not a pass", 0)
+						ctx.Unknown(fmt.Sprintf("analyser panic / %v", e), 0, "%s", debug.Stack())
+					}
+				}()
+				r(ctx)
+			}()
+		}
+		for _, o := range ctx.Unlisted(verif) {
+			bad++
+			fmt.Printf("%s %s %s [%s] %s: %s\n", id, o.Status, o.Rule, o.Key, o.Pos, strings.ReplaceAll(o.Detail, "\n", " "))
+		}
+	}
+	fmt.Printf("all: %d properties, %d obligations not discharged\n", len(ids), bad)
+	if bad > 0 {
+		os.Exit(1)
+	}
 }
